@@ -58,11 +58,35 @@ def sec(d):
     return int((d - BASE).total_seconds())
 
 
+class _Timeout(Exception):
+    pass
+
+
+def _alarm(signum, frame):
+    raise _Timeout("no result after the time limit")
+
+
 def call(fn, *a, **k):
+    """run one instance; exceptions become ('raise', ...); a run that does not end within
+    RUN_LIMIT seconds (e.g. a simulation whose time step became 0 on a broken tree) is cut off"""
+    import signal
+
+    old = signal.signal(signal.SIGALRM, _alarm)
+    signal.alarm(RUN_LIMIT)
     try:
         return ("ok", fn(*a, **k))
+    except _Timeout as e:
+        TIMEOUTS[0] += 1
+        return ("raise", "Timeout: %s" % e)
     except Exception as e:
         return ("raise", "%s: %s" % (type(e).__name__, str(e)[:200]))
+    finally:
+        signal.alarm(0)
+        signal.signal(signal.SIGALRM, old)
+
+
+RUN_LIMIT = 40
+TIMEOUTS = [0]  # runs cut off so far; after three a stream stops generating new instances
 
 
 def eqv(a, b, tol=0.0):
@@ -343,6 +367,9 @@ def stream_backends(c, N, tmp):
     c.programs += 1
     lines, cases = [], []
     for i in range(N):
+        if TIMEOUTS[0] >= 3:
+            c.hit("backends/skipped after repeated timeouts")
+            continue
         inst = gen_instance(rng)
         k0, E, dts = inst["k0"], inst["E"], inst["dts"]
         case = {"stream": "backends", "instance": inst}
@@ -478,8 +505,11 @@ def stream_simulation(c, N, tmp):
         f.write(MO_SIM)
     c.programs += 1
     for i in range(N):
+        if TIMEOUTS[0] >= 3:
+            c.hit("simulation/skipped after repeated timeouts")
+            continue
         inst = gen_instance(rng, sim=True)
-        backend = rng.choice(["csv", "pi"])
+        backend = rng.choice(["csv", "pi", "pi"])
         if backend == "csv":
             inst["k0"] = 0  # the CSV mixin always starts at the first stamp
             inst["members"][0]["x"] = [inst["members"][0]["x"][0] if not isnan(inst["members"][0]["x"][0]) else 0.5] + \
@@ -493,13 +523,28 @@ def stream_simulation(c, N, tmp):
         root = os.path.join(tmp, "s%d" % i)
         os.makedirs(root)
 
+        new_u = None
+        if backend == "pi" and rng.random() < 0.5:
+            # the user replaces the input u from t0 on (values cover forecastDate .. endDate)
+            new_u = [round(rng.uniform(-1, 1), 3) for _ in range(len(dts) - k0)]
+            case["set_u_from_t0"] = new_u
+        seen = {}
+
         def real():
             if backend == "csv":
                 inp, out = make_csv_folder(root, inst, sim=True)
                 p = SCsv(model_name="S", model_folder=mo, input_folder=inp, output_folder=out)
             else:
                 inp, out = make_pi_folder(root, inst, sim=True)
-                p = SPi(model_name="S", model_folder=mo, input_folder=inp, output_folder=out)
+
+                class SPiSet(SPi):
+                    def pre(self):
+                        super().pre()
+                        if new_u is not None:
+                            self.set_timeseries("u", np.array(new_u))
+                            seen["u"] = [float(x) for x in self.get_timeseries("u")]
+
+                p = SPiSet(model_name="S", model_folder=mo, input_folder=inp, output_folder=out)
             with quiet_fd():
                 p.simulate()
             er = p.extract_results()
@@ -520,6 +565,11 @@ def stream_simulation(c, N, tmp):
             c.fail("simulation %s: simulate/export raised" % backend, case, r[1])
             continue
         res, times, exported = r[1]
+        if new_u is not None:
+            c.hit("simulation/pi set_timeseries from t0")
+            if not eqv(seen.get("u", []), [NAN] * k0 + new_u):
+                c.fail("simulation PIMixin.set_timeseries: values given from t0 on are not stored from t0 on", case, seen)
+            s = {**s, "u": [NAN] * k0 + new_u}
         if times != [float(t - dts[k0]) for t in dts[k0:]]:
             c.fail("simulation: times() is not the stamps from t0 on", case, times)
         stamps, cols = exported[0]
@@ -546,43 +596,14 @@ def stream_simulation(c, N, tmp):
 # ---------------------------------------------------------------------------------------------
 
 
-def probes(c, tmp):
-    """dedicated probes of findings that are not (yet) repaired"""
+def corpus(c, tmp):
+    """inputs of repaired findings, checked as ordinary cases"""
     import random
 
-    from rtctools.optimization.timeseries import Timeseries  # noqa
-
     rng = random.Random(12)
-    # --- C12-N2: NetCDFMixin export when the reference datetime is not the first import stamp
-    Csv, CsvEns, Pi, Nc = opt_classes()
-    mo = os.path.join(tmp, "mo_p")
-    os.makedirs(mo)
-    with open(os.path.join(mo, "M.mo"), "w") as f:
-        f.write(MO)
-    inst = gen_instance(rng)
-    while inst["k0"] != 1 or inst["E"] != 1:
-        inst = gen_instance(rng)
-    root = os.path.join(tmp, "p_nc")
-    os.makedirs(root)
-
-    def real_nc():
-        inp, out = make_nc_folder(root, inst)
-        p = Nc(model_name="M", model_folder=mo, input_folder=inp, output_folder=out)
-        p.t0_index = 1
-        with quiet_fd():
-            p.optimize()
-        ex, _ = read_nc_export(out, 1)
-        return ex[0][0]
-
-    r = call(real_nc)
-    exp = inst["dts"][1:]
-    c.known_probe("C12-N2", r[0] == "raise" or r[1] != exp,
-                  "NetCDFMixin export with t0 = second import stamp: stamps %s (rel. first import stamp) instead of %s"
-                  % ("raise" if r[0] == "raise" else [t - inst["dts"][0] for t in r[1]], [t - inst["dts"][0] for t in exp]))
-    shutil.rmtree(root, ignore_errors=True)
-    # --- F17: simulation PIMixin.set_timeseries when t0 is not the first stamp
+    # F45 (fixed 8e294aa): simulation PIMixin.set_timeseries when t0 is the second of the import stamps
     SCsv, SPi = sim_classes()
-    mos = os.path.join(tmp, "mos_p")
+    mos = os.path.join(tmp, "mos_c")
     os.makedirs(mos)
     with open(os.path.join(mos, "S.mo"), "w") as f:
         f.write(MO_SIM)
@@ -590,7 +611,7 @@ def probes(c, tmp):
     while inst["k0"] != 1:
         inst = gen_instance(rng, sim=True)
     inst["members"][0]["c"] = [0.0 if isnan(v) else v for v in inst["members"][0]["c"]]
-    root = os.path.join(tmp, "p_sp")
+    root = os.path.join(tmp, "c_sp")
     os.makedirs(root)
     seen = {}
 
@@ -610,8 +631,9 @@ def probes(c, tmp):
     call(real_sp)
     n_h = len(inst["dts"]) - 1
     ok = seen.get("r", ("raise", "not run"))[0] == "ok" and seen["stored"][0] == "ok" and \
-        eqv(seen["stored"][1][1:], [float(j) for j in range(n_h)])
-    c.known_probe("F17", not ok,
-                  "simulation PIMixin.set_timeseries with values from forecastDate to endDate, t0 = second stamp: %s"
-                  % (seen.get("r", ("raise", "not run"))[1] if seen.get("r", ("raise",))[0] == "raise" else seen.get("stored")))
+        eqv(seen["stored"][1], [NAN] + [float(j) for j in range(n_h)])
+    c.count(("corpus", "F45"))
+    if not ok:
+        c.fail("simulation PIMixin.set_timeseries with values from forecastDate to endDate (t0 = second stamp) "
+               "does not store them from t0 on", {"corpus": "F45", "instance": inst}, seen)
     shutil.rmtree(root, ignore_errors=True)
